@@ -248,8 +248,8 @@ func run(c *runner.Ctx) {
 		tls := transLists
 		if c.Thorough() && len(cur) == 2 {
 			// third rule: a reduced menu keeps the product finite and finishes in minutes
-			ks = []ruleT{kinds[0], kinds[2], kinds[6], kinds[8], kinds[9]}
-			tls = [][]string{{"lowercase"}, {"lowercase", "trim"}, {"trim"}}
+			ks = []ruleT{kinds[0], kinds[2], kinds[6], kinds[9]}
+			tls = [][]string{{"lowercase"}, {"lowercase", "trim"}}
 		}
 		for _, k := range ks {
 			for _, tl := range tls {
